@@ -59,7 +59,52 @@ CHECKS = {
         technique="TLA+ spec of the abstract distance domain + TLC case enumeration replayed on the real tracer; TLC trace validation",
         design_ref="4.3, 5/C04",
     ),
+    "C05": dict(
+        category="model_checking",
+        text="Tracer.tla models the enabled flag across callbacks that raise (with and without restoring on the "
+             "error path; the variant without must violate EnabledRestored). (a) every C04 case as a single real "
+             "tracer callback: flag restored and a following line visit recorded; (b) TLC enumerates test cases "
+             "(statement sequences; 13 ways in which traced code raises or must not raise; caught by the SUT or "
+             "escaping) that run on the real TestCaseExecutor with generated instrumented modules; TLC validates "
+             "the observed per-statement flags, the lines/predicates executed after the catch and the reported "
+             "exceptions (TracerProgTrace.tla).",
+        note="The enabled flag is read in the executing thread by wrapping the executor's statement hooks at run "
+             "time; BRANCH+LINE instrumentation; statement sequences of length <= 2 (quick) / 3 (thorough).",
+        technique="TLA+ spec + TLC; TLC-enumerated programs replayed on the real executor; TLC trace validation",
+        design_ref="4.3, 5/C05",
+    ),
 }
 
 NOT_BUILT_REASON = "not built yet in this round (planned, see DESIGN.md section 5); no claim is made"
 NOT_APPLICABLE = {}
+
+
+def _load_from_notes() -> None:
+    """Registry entries delivered by component builders live in notes/Cxx.md as a python block."""
+    import re
+    from pathlib import Path
+
+    for md in sorted((Path(__file__).resolve().parent.parent / "notes").glob("C*.md")):
+        txt = md.read_text()
+        for block in re.findall(r"```python\n(.*?)```", txt, flags=re.S):
+            m = re.search(r'^\s*"?(C\d+)"?\s*[:=]\s*dict\(', block, flags=re.M)
+            if not m or m.group(1) in CHECKS:
+                continue
+            try:
+                val = eval("{" + block.strip().rstrip(",") + "}", {"dict": dict})  # noqa: S307
+            except Exception:  # noqa: BLE001
+                try:
+                    ns: dict = {}
+                    exec(block, {"dict": dict, "CHECKS": ns})  # noqa: S102
+                    val = ns
+                except Exception:  # noqa: BLE001
+                    continue
+            for k, v in val.items():
+                if isinstance(v, dict) and {"category", "text", "note", "technique"} <= set(v):
+                    v.setdefault("design_ref", "5/" + k)
+                    # only claim it when the check module exists
+                    if (Path(__file__).resolve().parent / "props" / f"{k}.py").exists():
+                        CHECKS.setdefault(k, v)
+
+
+_load_from_notes()
